@@ -175,6 +175,10 @@ theorem symlink_ok {c : Cfg} {fs fs' : FS} {t p : Text} (h : act c fs (.symlink 
     simp only [hg] at h
     by_cases hd : (fs.node pi).dir = true
     · simp only [hd, Bool.not_true, Bool.false_eq_true, if_false] at h
+      cases hdn : dotName (base p) with
+      | true => simp [hdn, errOf] at h
+      | false =>
+      simp only [hdn, Bool.false_eq_true, if_false] at h
       cases hl : fs.lookup pi (base p) with
       | some x => simp [hl, errOf] at h
       | none =>
